@@ -55,6 +55,9 @@ theorem ofRes_thenC_next (r : Res σ) : (ofRes r : Ctl σ ρ).thenC (fun st => C
 @[simp] theorem brk_thenR (s : σ) (k : σ → Res ρ) : (Ctl.brk s : Ctl σ ρ).thenR k = k s := rfl
 @[simp] theorem ret_thenR (r : ρ) (k : σ → Res ρ) : (Ctl.ret r : Ctl σ ρ).thenR k = .ok r := rfl
 @[simp] theorem panic_thenR (f : Fault) (k : σ → Res ρ) : (Ctl.panic f : Ctl σ ρ).thenR k = .error f := rfl
+@[simp] theorem panic_thenC {σ' : Type} (f : Fault) (k : σ' → Ctl σ ρ) : (Ctl.panic f : Ctl σ' ρ).thenC k = .panic f := rfl
+@[simp] theorem ret_thenC {σ' : Type} (r : ρ) (k : σ' → Ctl σ ρ) : (Ctl.ret r : Ctl σ' ρ).thenC k = .ret r := rfl
+@[simp] theorem brk_thenC {σ' : Type} (s : σ') (k : σ' → Ctl σ ρ) : (Ctl.brk s : Ctl σ' ρ).thenC k = k s := rfl
 @[simp] theorem tryR_ok {α : Type} (a : α) (k : α → Res ρ) : tryR (.ok a) k = k a := rfl
 @[simp] theorem tryR_error {α : Type} (f : Fault) (k : α → Res ρ) : tryR (.error f) k = .error f := rfl
 @[simp] theorem tryC_ok {α : Type} (a : α) (k : α → Ctl σ ρ) : tryC (.ok a) k = k a := rfl
@@ -220,6 +223,10 @@ theorem bit_natCast (e : Int) (k : Nat) (hk : e = k) (h32 : k < 32) :
   apply Nat.mod_eq_of_lt
   rw [Nat.one_shiftLeft]
   exact Nat.pow_lt_pow_right (by decide) h32
+
+theorem ishl_one (k : Nat) : ishl 1 (k : Int) = ((1 <<< k : Nat) : Int) := by
+  have e1 : (1 : Int) = ((1 : Nat) : Int) := rfl
+  rw [e1, ishl_natCast]
 
 theorem one_shl_lt (k : Nat) (h : k < 32) : 1 <<< k < W32 := by
   rw [Nat.one_shiftLeft]; exact Nat.pow_lt_pow_right (by decide) h
